@@ -16,8 +16,8 @@ ASSUMPTIONS = ["exact-jet oracle (sinusoid closed forms + 2nd-order AD + numpy.l
 TIMEOUT = {"quick": 1500, "thorough": 7000}
 MIN_NONTRIVIAL = {"quick": 60, "thorough": 200}
 
-ALGEBRAIC = ['gdown4', 'gup4', 'gdet']
-DIFFERENTIAL = ['st_Gamma_udd4', 'st_Riemann_down4', 'st_Riemann_uddd4',
+ALGEBRAIC = ['gdet', 'gdown4', 'gup4']       # gdet first: its 3+1 arm (gdown4 not cached yet)
+DIFFERENTIAL = ['st_Ricci_down3', 'st_Gamma_udd4', 'st_Riemann_down4', 'st_Riemann_uddd4',
                 'st_Riemann_uudd4', 'st_Ricci_down4', 'st_RicciS',
                 'Einsteindown4', 'Kretschmann']
 
